@@ -186,6 +186,54 @@ class TimeframeMinMax(Harness):
         return label
 
 
+class Availability(Harness):
+    """real Algorithms.get_recommendations on a synthetic table: a clean row and a failing row that both appeared in <product> version b; server = <product>
+    version a.  The clean row is recommended ('add') and the offered failing row flagged ('del') exactly when a >= b numerically."""
+    prop, ob = PROP, 'O4'
+    width = 64
+    PFX = {'openssh': '', 'dropbear': 'd', 'libssh': 'l1'}
+
+    def __init__(self, product, sa, sb):
+        self.product, self.sa, self.sb = product, tuple(sa), tuple(sb)
+        self.name = 'availability-%s-%s-vs-%s' % (product, 'x'.join(map(str, sa)), 'x'.join(map(str, sb)))
+
+    def params(self):
+        return {'product': self.product, 'sa': list(self.sa), 'sb': list(self.sb)}
+
+    def inputs(self):
+        return {'a': sym_version('a', self.sa), 'b': sym_version('b', self.sb)}
+
+    def run(self, M, inp):
+        from props import outlib as OL
+        from props.c06 import make_kex
+        since = self.PFX[self.product] + inp['b']
+
+        def patch(d2, d1):
+            for cat in ('kex', 'key', 'enc', 'mac'):
+                d2[cat].clear()
+            d2['kex']['zx-new'] = [[since]]
+            d2['kex']['zx-weak'] = [[since], ['f']]
+            d2['kex']['zx-offered'] = [[None]]
+        OL.fresh_tables(M, patch)
+        kex = make_kex(M, {'kex': ['zx-offered', 'zx-weak'], 'key': ['h'], 'enc': ['e'], 'mac': ['m']})
+        algs = M.algorithms.Algorithms(None, kex)
+        sw = M.software.Software(None, PRODUCTS[self.product], inp['a'], None, None)
+        r = guarded(algs.get_recommendations, sw, True)
+        if isinstance(r, Exc):
+            return {'exc': r}
+        rec = r[1].get(2, {}).get('kex', {})
+        return {'add': sorted(rec.get('add', {})), 'del': sorted(rec.get('del', {})), 'chg': sorted(rec.get('chg', {}))}
+
+    def check(self, inp, obs):
+        if 'exc' in obs:
+            yield 'no-exception', False
+            return
+        lt, gt = num_cmp(inp['a'], inp['b'])
+        avail = s_not(lt)
+        yield 'recommended-iff-server-version>=first-version', s_and(s_implies(avail, obs['add'] == ['zx-new']), s_implies(s_not(avail), obs['add'] == []))
+        yield 'flagged-iff-server-version>=first-version', s_and(s_implies(avail, obs['del'] == ['zx-weak']), s_implies(s_not(avail), obs['del'] == []), obs['chg'] == [])
+
+
 def comparator_sites():
     """glue: the only version test in the recommendation pass is compare_version (AST check on the current source), so O1
     carries over to 'available in the identified version'."""
@@ -251,6 +299,16 @@ def tasks(tier):
                      [((1, 1), (1, 1)), ((1, 2), (1, 1)), ((2, 1), (1, 1)), ((1, 1), (1, 2)), ((1, 1, 1), (1, 1, 1)), ((1, 2, 1), (1, 1, 1)), ((4, 2), (1, 2))]):
             for order in ('ab', 'ba'):
                 T.append(TimeframeMinMax(pfx, a, b, order))
+    ash = [(1, 1), (1, 2), (2, 1)] if tier == 'quick' else [(1, 1), (1, 2), (2, 1), (2, 2), (1, 1, 1), (1, 2, 1), (1, 1, 2), (4, 2)]
+    for i, (a, b) in enumerate(itertools.product(ash, repeat=2)):
+        if len(a) != len(b) and tier == 'quick':
+            continue
+        for p in (prods if tier != 'quick' else [prods[i % 3]]):
+            T.append(Availability(p, a, b))
+    if tier == 'quick':
+        T.append(Availability('libssh', (1, 2, 1), (1, 1, 1)))
+        T.append(Availability('libssh', (1, 1, 1), (1, 2, 1)))
+        T.append(Availability('dropbear', (4, 2), (4, 2)))
     T.append(comparator_sites)
     return T
 
@@ -261,13 +319,15 @@ def harness_by_name(name, params):
         return Order(params['product'], params['sa'], params['sb'], params['pa'], params['pb'])
     if k == 'trans':
         return Transitive(params['product'], params['sa'], params['sb'], params['sc'])
+    if k == 'availability':
+        return Availability(params['product'], params['sa'], params['sb'])
     if k == 'timeframe':
         return TimeframeMinMax(params['prefix'], params['sa'], params['sb'], params['order'])
     raise KeyError(name)
 
 
 META = {
-    'functions': ['Software.compare_version', 'Timeframe.update/_update/get_from/get_till', 'Algorithm.get_ssh_version'],
+    'functions': ['Algorithms.get_recommendations (availability filter)', 'Software.compare_version', 'Timeframe.update/_update/get_from/get_till', 'Algorithm.get_ssh_version'],
     'bounds': {'quick': 'version strings with 1..3 components of 1..2 digits (no leading zeros), all digit values; OpenSSH/Dropbear/libssh; '
                         'patch suffixes p1,p2,test1,test2,rc1; transitivity over triples of 2-component versions',
                'thorough': '1..4 components of 1..4 digits; all three products for every shape pair; triples up to 3 components'},
